@@ -115,6 +115,7 @@ def main(argv=None):
                 validate=fam.get("validate", True), time_sort=fam.get("time_sort", "int"),
                 query_timeout_ms=fam.get("query_timeout_ms", 30000),
                 max_decisions=fam.get("max_decisions", 4000), seed=seed,
+                isolate_checks=fam.get("isolate_checks", False),
             )
             st = stats_of(rep, fam)
         st["name"] = name
